@@ -9,6 +9,19 @@
 //!   `other <instr> <time> [candle|liq|book]`             a price-less item: `Candle` / `Liquidation` / L2 `OrderBook`
 //!                                                        snapshot; without the kind: candle (even time) / liquidation (odd)
 //!
+//! Configuration shapes (`init <n> <x> <kinds> <on|off> <links> <via>`, seven tokens, family `cfg…`):
+//!   kinds  non-empty string over `s p f o q`, cycled over the instruments: spot / perpetual (contract size 10,
+//!          settled in the quote) / future (contract size 0.01, settled in the base) / option (contract size 100,
+//!          settled in a third asset) / spot with an `InstrumentSpec` whose quantities are in contracts
+//!   on|off trading state; with `on` (and via != state) the scripted strategy emits one open request for the
+//!          event's instrument after every event (sent or failing according to the exchange's link; audit
+//!          errors are then expected and not printed)
+//!   links  non-empty string over `H C M U`, cycled over the exchange labels (healthy / closed / missing = tracked
+//!          but not traded / refusing)
+//!   via    `proc` = `Engine::process`, `audit` = `process_with_audit`, `state` =
+//!          `EngineState::update_from_market` / `update_from_account` directly
+//! None of them is read by the documented estimate.
+//!
 //! Observations after each op, per instrument `i` (label = position in `init`):
 //!   `price<i>`  `InstrumentDataState::price()`
 //!   `pos<i>`    side, entry average, quantity, max quantity, entry fees of `position.current`
@@ -35,10 +48,33 @@ use barter_data::{
 };
 use barter_execution::{
     AccountEvent, AccountEventKind,
-    order::id::{OrderId, StrategyId},
+    order::{
+        OrderEvent, OrderKey, OrderKind, TimeInForce,
+        id::{ClientOrderId, OrderId, StrategyId},
+        request::RequestOpen,
+    },
     trade::{AssetFees, Trade, TradeId},
 };
-use barter_instrument::{Side, exchange::ExchangeIndex, instrument::InstrumentIndex};
+use barter_instrument::{
+    Side, Underlying,
+    asset::Asset,
+    exchange::ExchangeIndex,
+    index::IndexedInstruments,
+    instrument::{
+        Instrument, InstrumentIndex,
+        kind::{
+            InstrumentKind,
+            future::FutureContract,
+            option::{OptionContract, OptionExercise, OptionKind},
+            perpetual::PerpetualContract,
+        },
+        quote::InstrumentQuoteAsset,
+        spec::{
+            InstrumentSpec, InstrumentSpecNotional, InstrumentSpecPrice, InstrumentSpecQuantity,
+            OrderQuantityUnits,
+        },
+    },
+};
 use rust_decimal::Decimal;
 use vh::{engine_util::*, *};
 
@@ -47,6 +83,91 @@ fn s2s(s: Side) -> &'static str {
         Side::Buy => "B",
         Side::Sell => "S",
     }
+}
+
+/// As `engine_util::build_instruments` (same names), instrument `k` of kind `kinds[k % len]`.
+fn build_instruments_kinds(defs: &[(usize, &str, &str)], kinds: &[char]) -> IndexedInstruments {
+    let mut builder = IndexedInstruments::builder();
+    for (k, (ex, base, quote)) in defs.iter().enumerate() {
+        let c = kinds[k % kinds.len()];
+        let kind = match c {
+            'p' => InstrumentKind::Perpetual(PerpetualContract {
+                contract_size: Decimal::TEN,
+                settlement_asset: Asset::new_from_exchange(*quote),
+            }),
+            'f' => InstrumentKind::Future(FutureContract {
+                contract_size: Decimal::new(1, 2),
+                settlement_asset: Asset::new_from_exchange(*base),
+                expiry: time_ms(1_000_000),
+            }),
+            'o' => InstrumentKind::Option(OptionContract {
+                contract_size: Decimal::ONE_HUNDRED,
+                settlement_asset: Asset::new_from_exchange("usdc"),
+                kind: OptionKind::Call,
+                exercise: OptionExercise::European,
+                expiry: time_ms(1_000_000),
+                strike: Decimal::ONE_HUNDRED,
+            }),
+            _ => InstrumentKind::Spot,
+        };
+        let spec = (c == 'q').then(|| InstrumentSpec {
+            price: InstrumentSpecPrice { min: Decimal::new(1, 2), tick_size: Decimal::new(1, 2) },
+            quantity: InstrumentSpecQuantity {
+                unit: OrderQuantityUnits::Contract,
+                min: Decimal::ONE,
+                increment: Decimal::ONE,
+            },
+            notional: InstrumentSpecNotional { min: Decimal::TEN },
+        });
+        builder = builder.add_instrument(Instrument::new(
+            EXCHANGES[*ex],
+            format!("{base}_{quote}_x{ex}"),
+            format!("{}{}", base.to_uppercase(), quote.to_uppercase()),
+            Underlying::new(Asset::new_from_exchange(*base), Asset::new_from_exchange(*quote)),
+            InstrumentQuoteAsset::UnderlyingQuote,
+            kind,
+            spec,
+        ));
+    }
+    builder.build()
+}
+
+#[derive(Clone, Copy, PartialEq)]
+enum Via {
+    Proc,
+    Audit,
+    State,
+}
+
+/// `<kinds> <on|off> <links> <via>` of the seven-token `init`
+fn parse_cfg(t: &[String]) -> Option<(Vec<char>, TradingState, Vec<Link>, Via)> {
+    let kinds: Vec<char> = t[0].chars().collect();
+    if kinds.is_empty() || !kinds.iter().all(|c| "spfoq".contains(*c)) {
+        return None;
+    }
+    let trading = match t[1].as_str() {
+        "on" => TradingState::Enabled,
+        "off" => TradingState::Disabled,
+        _ => return None,
+    };
+    let links: Option<Vec<Link>> = t[2]
+        .chars()
+        .map(|c| match c {
+            'H' => Some(Link::Healthy),
+            'C' => Some(Link::Closed),
+            'M' => Some(Link::Missing),
+            'U' => Some(Link::Unhealthy),
+            _ => None,
+        })
+        .collect();
+    let links = links.filter(|l| !l.is_empty())?;
+    let via = match t[3].as_str() {
+        "proc" => Via::Proc,
+        "audit" => Via::Audit,
+        "state" => Via::State,
+        _ => return None,
+    };
+    Some((kinds, trading, links, via))
 }
 
 /// per instrument label: (position in the engine's instrument table, exchange label, `ExchangeIndex`)
@@ -203,15 +324,28 @@ fn run() {
     run_cases(|case, lines| {
         let mut built: Option<Built> = None;
         let mut map: Vec<Slot> = vec![];
-        for op in case.ops.iter() {
+        let mut via = Via::Proc;
+        let mut emit = false;
+        for (k, op) in case.ops.iter().enumerate() {
             lines.push("@".into());
             if op[0] == "init" {
+                let cfg = if op.len() == 7 {
+                    match parse_cfg(&op[3..]) {
+                        Some(c) => Some(c),
+                        None => {
+                            lines.push("bad-op".into());
+                            continue;
+                        }
+                    }
+                } else {
+                    None
+                };
                 let x = match op.get(2) {
                     None => Some(1usize),
                     Some(s) => s.parse::<usize>().ok().filter(|x| (1..=EXCHANGES.len()).contains(x)),
                 };
                 let (Some(n), Some(x)) =
-                    (op.get(1).and_then(|s| s.parse::<usize>().ok()).filter(|_| op.len() <= 3), x)
+                    (op.get(1).and_then(|s| s.parse::<usize>().ok()).filter(|_| op.len() <= 3 || cfg.is_some()), x)
                 else {
                     lines.push("bad-op".into());
                     continue;
@@ -219,8 +353,23 @@ fn run() {
                 let names: Vec<String> = (0..n).map(|k| format!("b{k}")).collect();
                 let defs: Vec<(usize, &str, &str)> =
                     names.iter().enumerate().map(|(k, b)| (k % x, b.as_str(), "usdt")).collect();
-                let instruments = build_instruments(&defs);
-                let b = build_engine(&instruments, &[], TradingState::Disabled);
+                via = Via::Proc;
+                emit = false;
+                let b = match &cfg {
+                    None => build_engine(&build_instruments(&defs), &[], TradingState::Disabled),
+                    Some((kinds, trading, links, v)) => {
+                        via = *v;
+                        emit = *trading == TradingState::Enabled && via != Via::State;
+                        let ii = build_instruments_kinds(&defs, kinds);
+                        // `build_engine` wants the links in ExchangeIndex order; the op gives them by label
+                        let by_index: Vec<Link> = ii
+                            .exchanges()
+                            .iter()
+                            .map(|e| links[EXCHANGES.iter().position(|x| *x == e.value).unwrap() % links.len()])
+                            .collect();
+                        build_engine(&ii, &by_index, *trading)
+                    }
+                };
                 map = (0..n)
                     .map(|i| {
                         let ex = i % x;
@@ -255,13 +404,52 @@ fn run() {
             match parse_event(op, &map) {
                 None => lines.push("bad-op".into()),
                 Some(ev) => {
-                    let r = std::panic::catch_unwind(std::panic::AssertUnwindSafe(|| engine.process(ev)));
+                    // trading enabled: the strategy emits an open request for the event's instrument
+                    let label = op[if op[0] == "fill" { 2 } else { 1 }].parse::<usize>().ok();
+                    if let (true, Some(slot)) = (emit, label.and_then(|l| map.get(l))) {
+                        engine.strategy.script.borrow_mut().push_back((
+                            vec![],
+                            vec![OrderEvent {
+                                key: OrderKey {
+                                    exchange: ExchangeIndex(slot.2),
+                                    instrument: InstrumentIndex(slot.0),
+                                    strategy: StrategyId::new("verif"),
+                                    cid: ClientOrderId::new(format!("g{k}")),
+                                },
+                                state: RequestOpen {
+                                    side: Side::Buy,
+                                    price: Decimal::ONE_HUNDRED,
+                                    quantity: Decimal::ONE,
+                                    kind: OrderKind::Limit,
+                                    time_in_force: TimeInForce::GoodUntilCancelled { post_only: false },
+                                },
+                            }],
+                        ));
+                    }
+                    let r = std::panic::catch_unwind(std::panic::AssertUnwindSafe(|| match (via, ev) {
+                        (Via::Proc, ev) => Some(engine.process(ev)),
+                        (Via::Audit, ev) => Some(barter::engine::process_with_audit(engine, ev).event),
+                        (Via::State, EngineEvent::Market(MarketStreamEvent::Item(ev))) => {
+                            engine.state.update_from_market(&ev);
+                            None
+                        }
+                        (Via::State, EngineEvent::Account(AccountStreamEvent::Item(ev))) => {
+                            let _exit = engine.state.update_from_account(&ev);
+                            None
+                        }
+                        (Via::State, _) => unreachable!(),
+                    }));
                     match r {
                         Err(_) => {
+                            // an emitted request that was not consumed must not leak into the next event
+                            engine.strategy.script.borrow_mut().clear();
                             lines.push("panic".into());
                             continue;
                         }
-                        Ok(audit) => {
+                        Ok(None) => {}
+                        // with an emitting strategy and unhealthy links, send errors are expected
+                        Ok(Some(_)) if emit => {}
+                        Ok(Some(audit)) => {
                             if let EngineAudit::Process(p) = &audit {
                                 if !p.errors.is_empty() {
                                     lines.push("audit-errors".into());
@@ -434,13 +622,16 @@ const REGIMES: &[Regime] = &[
     },
 ];
 
-fn gen_case_dom(rng: &mut Rng, out: &mut Out, id: String, tier: &str) {
+fn gen_case_dom(rng: &mut Rng, out: &mut Out, id: String, tier: &str, cfg: Option<String>) {
     out.case(id);
     let r = &REGIMES[rng.below(REGIMES.len() as u64) as usize];
     // up to 8 instruments on up to 3 exchanges (instrument k on exchange k % x)
     let n = if rng.chance(50) { rng.range(1, 3) } else { rng.range(4, 8) } as usize;
     let x = rng.range(1, 3.min(n as i64));
-    if x == 1 && rng.chance(50) {
+    if let Some(cfg) = cfg {
+        // configuration-shape family: the set-up tokens follow `init n x`
+        out.line(format!("init {n} {x} {cfg}"));
+    } else if x == 1 && rng.chance(50) {
         out.line(format!("init {n}"));
     } else {
         out.line(format!("init {n} {x}"));
@@ -567,7 +758,23 @@ fn generate(seed: u64, n_cases: usize, tier: &str) {
     let mut rng = Rng::new(seed ^ 0xD0D0_15);
     for _ in 0..(n_cases / 2).max(16) {
         id += 1;
-        gen_case_dom(&mut rng, &mut out, format!("d{id}"), tier);
+        gen_case_dom(&mut rng, &mut out, format!("d{id}"), tier, None);
+    }
+    // Separately seeded family `cfg…` (configuration-shape audit): instrument kinds, trading enabled with an
+    // emitting strategy, execution links per exchange, and the API the events are fed through.
+    let mut rng = Rng::new(seed ^ 0xCF6_0015);
+    for _ in 0..(n_cases / 2).max(16) {
+        id += 1;
+        let kinds: String =
+            (0..rng.range(1, 4)).map(|_| *rng.pick(&['s', 'p', 'f', 'o', 'q', 'p', 'f'])).collect();
+        let links: String = if rng.chance(25) {
+            "H".into()
+        } else {
+            (0..rng.range(1, 3)).map(|_| *rng.pick(&['H', 'M', 'M', 'C', 'U'])).collect()
+        };
+        let via = *rng.pick(&["proc", "proc", "audit", "state"]);
+        let trading = if rng.chance(60) { "on" } else { "off" };
+        gen_case_dom(&mut rng, &mut out, format!("cfg{id}"), tier, Some(format!("{kinds} {trading} {links} {via}")));
     }
     out.flush();
 }
